@@ -269,12 +269,27 @@ int main(int argc, char** argv) {
     for (auto& f : tf) ctx.violation("tables|product precomputations", "table fact violated: " + f);
     ctx.end_case(true);
   }
+  // informational configurations (29-bit / 31-bit prime sets): the same binary built against those libraries
+  Json info = Json::obj();
+  for (int a = 0; a < 2 && !getenv("VERIF_INFORMATIONAL"); ++a) {
+    const char* aux = getenv(a ? "VERIF_AUX_1" : "VERIF_AUX_0");
+    if (!aux || args.replaying()) continue;
+    std::string tmpd = sfmt("%s/c04_info_%d", getenv("VERIF_LIBDIR") ? getenv("VERIF_LIBDIR") : "/tmp", (int)getpid());
+    std::string cmd = sfmt("mkdir -p '%s' && VERIF_INFORMATIONAL=1 VERIF_OUT_DIR='%s' '%s' %s 2>&1", tmpd.c_str(), tmpd.c_str(), aux, args.tier.c_str());
+    std::string out; FILE* f = popen(cmd.c_str(), "r"); if (f) { char buf[4096]; size_t n; while ((n = fread(buf, 1, sizeof buf, f)) > 0) out.append(buf, n); pclose(f); }
+    size_t nv = 0, pos = 0; while ((pos = out.find("\nVIOLATION", pos)) != std::string::npos) { ++nv; ++pos; }
+    std::string first; size_t w = out.find("what: "); if (w != std::string::npos) first = out.substr(w + 6, out.find('\n', w) - w - 6);
+    std::string last = out.substr(out.rfind('\n', out.size() - 2) == std::string::npos ? 0 : out.rfind('\n', out.size() - 2) + 1);
+    info.set(a ? "primes_31_bit" : "primes_29_bit", nv ? sfmt("INFORMATIONAL ONLY: %zu envelope/side-condition failures, first: %s", nv, first.c_str()) : "INFORMATIONAL ONLY: model and concrete runs pass: " + last);
+    if (system(("rm -rf '" + tmpd + "'").c_str())) {}
+  }
   // totals for the model_checking evidence keys
   uint64_t states = 0, trans = 0, traces = 0, unavailable = 0;
   for (int k = 0; k <= ctx.nw; ++k) { states += ctx.w[k].cnt[0]; trans += ctx.w[k].cnt[1]; traces += ctx.w[k].cnt[6]; unavailable += ctx.w[k].cnt[5]; }
   Json ex = Json::obj();
   ex.set("states", states).set("transitions", trans).set("traces_validated_against_impl", traces);
   ex.set("stage_trace", unavailable ? "unavailable for some runs (stage functions no longer interposable): those runs rest on the end-to-end oracle" : "available");
+  if (!info.o.empty()) ex.set("informational_prime_sets", info);
   ex.set("trace_sizes", sfmt("n <= %llu, 6 lane patterns, both directions", (unsigned long long)trace_max));
   ctx.assumptions = {"default 30-bit prime set (29/31-bit sets are informational configurations, not decided here)",
                      "the transfer functions are written by hand from q120_ntt_avx2.c / q120_arithmetic_{ref,avx2}.c; they are bound to the code by schedule conformance, measured maxima and table checks, not by a proof of equivalence",
